@@ -84,6 +84,33 @@ def fresh_dir(name: str = "case") -> Path:
     return d
 
 
+import contextlib
+import fcntl
+
+
+@contextlib.contextmanager
+def case_dir(key: Any, name: str = "case"):
+    """A scratch directory whose *path* is a deterministic function of the
+    case (not of the process): code under test that iterates sets of absolute
+    paths then behaves identically in the explorer, in the confirmation re-run
+    and in a replay.  An exclusive lock serialises concurrent users."""
+    d = scratch_base() / f"{name}-{h64(key):016x}"
+    lock = open(str(d) + ".lock", "w")
+    fcntl.flock(lock, fcntl.LOCK_EX)
+    try:
+        if d.exists() or d.is_symlink():
+            force_rmtree(d)
+        d.mkdir(parents=True)
+        yield d
+    finally:
+        if d.exists():
+            force_rmtree(d)
+        fcntl.flock(lock, fcntl.LOCK_UN)
+        lock.close()
+        with contextlib.suppress(OSError):
+            os.unlink(str(d) + ".lock")
+
+
 def force_rmtree(p: Path) -> None:
     def onerr(func, path, exc):  # pragma: no cover - root rarely needs it
         try:
